@@ -366,12 +366,21 @@ func NewRestartableWorld(capacity uint64) (*World, error) {
 // Restart stops the node under test and starts a new one over a copy of its local store
 // content and the same state store (chunkinfo reloads its tables from it), reconnected to
 // the source node.
-func (w *World) Restart() error {
+func (w *World) Restart() error { return w.restart(false) }
+
+// RestartWithEmptyStore is Restart for a node that lost its chunk database but kept its
+// state store (the two live in different directories of a real node).
+func (w *World) RestartWithEmptyStore() error { return w.restart(true) }
+
+func (w *World) restart(loseStore bool) error {
 	if w.fault == nil {
 		return fmt.Errorf("fsim: world is not restartable")
 	}
 	w.N.Store.VerifWaitUpdateGC()
 	snap := w.fault.Snapshot()
+	if loseStore {
+		snap = nil
+	}
 	state := w.N.State
 	w.N.Close()
 	vdb.DropFault(w.faultName)
